@@ -354,8 +354,10 @@ pub fn list_files(root: &Path) -> anyhow::Result<Vec<PathBuf>> {
     let mut out = Vec::new();
     for entry in WalkDir::new(root).follow_links(false) {
         let entry = entry?;
-        if entry
-            .path()
+        // Filter on components relative to the walked root (like `copy_tree`): the root itself
+        // may legitimately live under a directory named `.agentpack` (the default home).
+        let rel = entry.path().strip_prefix(root).unwrap_or(entry.path());
+        if rel
             .components()
             .any(|c| c.as_os_str() == ".agentpack" || c.as_os_str() == ".git")
         {
